@@ -54,3 +54,9 @@ package middlewares
 //@   at-call? fiber.Ctx.Locals {C02,C06} [body-reader-only-through-wrapBodyReader] requires !($1 == iface("body-reader") && len($2) > 0)
 //@ func VerifyPresignedV4Signature$1
 //@   at-call? fiber.Ctx.Locals {C02,C06} [body-reader-only-through-wrapBodyReader] requires !($1 == iface("body-reader") && len($2) > 0)
+
+// ---- C04: the decoded request path is installed, and the request passed on, only for opaque names ----
+//@ func DecodeURL$1
+//@   at-call fiber.Ctx.Path {C04} [only-dot-free-paths-are-installed] when len($1) > 0 :: requires !backend.HasDotSegment($1[0])
+//@   at-call fiber.Ctx.Next {C04} [ids-are-single-path-elements] requires backend.IsPathComponent(ctx.Query("versionId")) && backend.IsPathComponent(ctx.Query("uploadId"))
+//@   at-call fiber.Ctx.Next {C04} [next-only-after-installing-the-decoded-path] requires called("fiber.Ctx.Path")
